@@ -39,6 +39,21 @@ Theorem T12_map_otherwise_500 : forall f, f_operr f = None -> f_timeout f = fals
 Proof. exact (map_otherwise ob_handler_order ob_goos_not_windows ob_code_default ob_code_canceled). Qed.
 Print Assumptions T12_map_otherwise_500.
 
+(* The response forwarder builds for a classified error (status line of the client's protocol
+   version, Content-Length of the body, Content-Type, X-Forwarder-Error, optionally Connection:
+   close and Proxy-Authenticate) is a complete well-formed response for a client: it parses with
+   the classifier's status, exactly the body, nothing after it, and carries X-Forwarder-Error —
+   for every error text (CR / LF in it are neutralised in the header), every name and message. *)
+Theorem T12_error_response_wellformed : forall minor d2 d1 d0 reason name msg errtext close,
+  minor <= 9 -> 4 <= d2 <= 5 -> d1 <= 9 -> d0 <= 9 ->
+  no_byte LF reason = true -> no_byte CR reason = true ->
+  N.of_nat (length (error_body name msg errtext)) < 10 ^ 18 ->
+  forall eof, let r := client_parse (error_wire minor d2 d1 d0 reason name msg errtext close) eof false in
+  pv r = Complete /\ pstatus r = code_of d2 d1 d0 /\ pbody r = error_body name msg errtext /\ prest r = [] /\
+  pframing r = 1 /\ existsb (fun kv => eq_fold (fst kv) (b "X-Forwarder-Error")) (phdr r) = true.
+Proof. exact error_response_wellformed. Qed.
+Print Assumptions T12_error_response_wellformed.
+
 (* A rejected CONNECT is answered with the upstream proxy's own status: on both
    paths (dialvia for a client CONNECT, the transport's *connectError for an
    https request) the response written is the upstream's (source SUp / SConnErr),
